@@ -1,15 +1,363 @@
 /-
-  Driver engine stub (Net): replaced by the real engine; see notes/AGENT_BRIEF.md.
+  Driver engine for C15 (Network): compares `Network::load`, the point queries and every trip
+  (walk / jump / teleport, directly and through `NetworkDispersalKernel`) with the model, and
+  evaluates the property predicates of Model/NetPred.lean on the structure and results OBSERVED
+  from the implementation. Random choices are not replayed: a trip result must be a member of the
+  model's set of reachable results.
 -/
 import PopsModel.Driver.Util
+import PopsModel.Model.NetPred
 namespace Pops.Driver.NetEng
-open Pops Pops.Driver
+open Pops Pops.Driver Pops.Net
 
 structure State where
-  dummy : Unit := ()
+  ready : Bool := false
+  model : Net := default          -- the model's loaded network
+  obs : Net := default            -- network rebuilt from the implementation's printed structure
+  obsAdj : List (NodeId × List NodeId) := []
 deriving Inhabited
 
-def handle (st : State) (_cmd : String) (_inp _obs : List String) : State × String :=
-  (st, "BADLINE")
+/-! ### token parsing -/
+
+abbrev P := StateT (List String) Option
+
+def tok : P String := do
+  match (← get) with
+  | [] => failure
+  | t :: r => set r; pure t
+def int : P Int := do let t ← tok; match parseInt? t with | some v => pure v | none => failure
+def nat : P Nat := do let t ← tok; match parseNat? t with | some v => pure v | none => failure
+def rat : P Rat := do let t ← tok; match parseRat? t with | some v => pure v | none => failure
+def lit (s : String) : P Unit := do let t ← tok; if t = s then pure () else failure
+def rep {α : Type} (n : Nat) (p : P α) : P (List α) :=
+  match n with
+  | 0 => pure []
+  | k + 1 => do let a ← p; let r ← rep k p; pure (a :: r)
+def cell : P Cell := do let r ← int; let c ← int; pure (r, c)
+
+structure ObsLoad where
+  nodes : List (NodeId × Cell)
+  segs : List (Key × Rat × Rat × List Cell)        -- key, cost, probability, cells
+  adj : List (NodeId × List NodeId × List Rat)
+  stats : Option (List Int)
+
+def obsLoad : P ObsLoad := do
+  lit "nodes"; let k ← nat
+  let nodes ← rep k (do let i ← int; let c ← cell; pure (i, c))
+  lit "segs"; let m ← nat
+  let segs ← rep m (do
+    let a ← int; let b ← int; let cost ← rat; let pr ← rat; let len ← nat
+    let cells ← rep len cell
+    pure ((a, b), cost, pr, cells))
+  lit "adj"; let p ← nat
+  let adj ← rep p (do
+    let a ← int; let d ← nat; let nb ← rep d int; let np ← nat; let ps ← rep np rat
+    pure (a, nb, ps))
+  lit "stats"
+  let rest ← get
+  let stats ← match rest with
+    | ["none"] => do set ([] : List String); pure none
+    | _ => do let l ← rep 6 int; pure (some l)
+  pure ⟨nodes, segs, adj, stats⟩
+
+def decodeText (s : String) : List Char :=
+  if s = "<empty>" then [] else s.toList.map fun ch => if ch = '|' then '\n' else if ch = '~' then ' ' else ch
+
+/-! ### canonical forms of the model's network -/
+
+def pairLt (a b : Int × Int) : Bool := decide (a.1 < b.1) || (decide (a.1 = b.1) && decide (a.2 < b.2))
+def nodeLe (a b : NodeId × Cell) : Bool :=
+  decide (a.1 < b.1) || (decide (a.1 = b.1) && (pairLt a.2 b.2 || a.2 == b.2))
+
+def canonNodes (l : List (NodeId × Cell)) : List (NodeId × Cell) := (l.mergeSort nodeLe).eraseDups
+
+def sortedIds (l : List NodeId) : List NodeId := (l.mergeSort (fun a b => decide (a ≤ b))).eraseDups
+
+def modelNodeIds (n : Net) : List NodeId := sortedIds (n.nodePlaces.map (·.1))
+
+/-- `collect_statistics` as coded (`num_segments` is `node_matrix_.size() / 2`). -/
+def modelStats (n : Net) : List Int :=
+  let ids := modelNodeIds n
+  let withSeg := ids.filter fun i => !(n.neighbours i).isEmpty
+  [(ids.length : Int), ((withSeg.length / 2 : Nat) : Int), (withSeg.length : Int),
+   ((ids.length - withSeg.length : Nat) : Int), ids.headD 0, ids.getLastD 0]
+
+def showCell (c : Cell) : String := s!"{c.1},{c.2}"
+def showRat (q : Rat) : String := if q.den = 1 then toString q.num else s!"{q.num}/{q.den}"
+
+def showOutcome : Outcome → String
+  | .at c => showCell c
+  | .err e => errTok e
+  | .oob => "out-of-bounds"
+  | .diverge => "diverge"
+
+def showOutcomes (l : List Outcome) : String := "{" ++ " ".intercalate (l.eraseDups.map showOutcome) ++ "}"
+
+/-- The network the implementation reports, as a `Net` (stated cost = observed cost). -/
+def obsNet (g : Grid) (hasProb : Bool) (o : ObsLoad) : Net :=
+  { grid := g, hasProb := hasProb,
+    segs := o.segs.map fun (k, cost, pr, cells) => (k, ⟨cells, 0, cost, pr⟩) }
+
+/-! ### the load line -/
+
+/-- Property predicates on the observed structure; `none` = all hold. -/
+def loadPredicates (g : Grid) (recs : List Rec) (o : ObsLoad) (on : Net) : Option String :=
+  let adjOf (a : NodeId) : List NodeId := ((o.adj.find? (fun e => e.1 = a)).map (·.2.1)).getD []
+  -- merge
+  match o.segs.find? (fun s => !mergedOK s.2.2.2) with
+  | some s => some s!"PROPFAIL C15 load_merge key={s.1.1},{s.1.2} cells={s.2.2.2.map showCell}"
+  | none =>
+  -- both directions
+  match o.segs.find? (fun s => !((adjOf s.1.1).contains s.1.2 && (adjOf s.1.2).contains s.1.1)) with
+  | some s => some s!"PROPFAIL C15 load_symmetric edge-not-in-adjacency key={s.1.1},{s.1.2}"
+  | none =>
+  match o.adj.find? (fun e => !(e.2.1.all fun b => (adjOf b).contains e.1)) with
+  | some e => some s!"PROPFAIL C15 load_symmetric one-way node={e.1}"
+  | none =>
+  match o.adj.find? (fun e => !(e.2.1.all fun b =>
+      o.segs.any fun s => s.1 == (e.1, b) || s.1 == (b, e.1))) with
+  | some e => some s!"PROPFAIL C15 load_symmetric adjacency-without-edge node={e.1}"
+  | none =>
+  -- nodes are exactly the end cells of the stored segments
+  if canonNodes o.nodes != canonNodes on.nodePlaces then
+    some s!"PROPFAIL C15 load_nodes nodes-differ-from-segment-ends"
+  else
+  -- cost: stated or length-derived
+  match o.segs.find? (fun s => !(recs.any fun r => r.key == s.1 &&
+      (if r.seg.total ≠ 0 then r.seg.total else ((s.2.2.2.length - 1 : Nat) : Rat) * r.seg.cpc) == s.2.1)) with
+  | some s => some s!"PROPFAIL C15 load_cost key={s.1.1},{s.1.2} cost={showRat s.2.1}"
+  | none =>
+  -- clipping: an edge inside the study area must be kept
+  match recs.find? (fun r => r.inside g && !(o.segs.any fun s => s.1 == r.key)) with
+  | some r => some s!"PROPFAIL C15 load_clip dropped-edge-inside key={r.key.1},{r.key.2}"
+  | none =>
+  -- clipping: a kept edge must have both end nodes inside; within one cell beyond the south /
+  -- east edge it is the open finding F17, further out a violation
+  let outside := o.segs.filter (fun s => !(recs.any fun r => r.key == s.1 && r.inside g))
+  match outside.find? (fun s => !(recs.any fun r => r.key == s.1 && r.f17 g)) with
+  | some s => some s!"PROPFAIL C15 load_clip kept-edge-outside key={s.1.1},{s.1.2}"
+  | none =>
+  match outside with
+  | s :: _ =>
+    match recs.find? (fun r => r.key == s.1 && r.f17 g) with
+    | some r =>
+      let (p, c) := if g.xyOut r.first.1 r.first.2 then (r.first, r.seg.front) else (r.last, r.seg.back)
+      some s!"KNOWN C15 F17 key={s.1.1},{s.1.2} end={showRat p.1},{showRat p.2} cell={showCell c} max={g.maxRow},{g.maxCol}"
+    | none => none
+  | [] => none
+
+def compareLoad (m : Net) (o : ObsLoad) : String :=
+  if canonNodes o.nodes != canonNodes m.nodePlaces then
+    s!"MISMATCH net.load nodes model={(canonNodes m.nodePlaces).map fun p => (p.1, p.2.1, p.2.2)}"
+  else if o.segs.map (·.1) != m.segs.map (·.1) then
+    s!"MISMATCH net.load keys model={m.segs.map (·.1)}"
+  else if o.segs.map (·.2.2.2) != m.segs.map (·.2.cells) then
+    s!"MISMATCH net.load cells model={m.segs.map fun e => e.2.cells.map showCell}"
+  else if o.segs.map (·.2.1) != m.segs.map (·.2.cost) then
+    s!"MISMATCH net.load cost model={m.segs.map fun e => showRat e.2.cost}"
+  else if o.segs.map (·.2.2.1) != m.segs.map (·.2.prob) then
+    s!"MISMATCH net.load probability model={m.segs.map fun e => showRat e.2.prob}"
+  else
+    let ids := modelNodeIds m
+    let adjM := (ids.filter fun i => !(m.neighbours i).isEmpty).map fun i => (i, m.neighbours i, m.neighbourProbs i)
+    if o.adj != adjM then s!"MISMATCH net.load adjacency model={adjM.map fun e => (e.1, e.2.1)}"
+    else match o.stats with
+      | none => if m.segs.isEmpty then "ok" else "MISMATCH net.load stats model-not-empty"
+      | some l => if l == modelStats m then "ok" else s!"MISMATCH net.load stats model={modelStats m}"
+
+def handleLoad (_st : State) (inp obs : List String) : State × String :=
+  match inp with
+  | [n, s, e, w, ew, ns, allow, text] =>
+    match parseRats? [n, s, e, w, ew, ns] with
+    | some [n, s, e, w, ew, ns] =>
+      let g : Grid := ⟨n, s, e, w, ew, ns⟩
+      let chars := decodeText text
+      let allowB := allow = "1"
+      let model := load g chars allowB
+      let st0 : State := {}
+      match obs with
+      | [o] =>
+        match model with
+        | .error k => (st0, if o = errTok k then "ok" else s!"PROPFAIL C15 load_rejects observed={o} documented={errTok k}")
+        | .ok m => (st0, s!"MISMATCH net.load model=ok segs={m.segs.length}")
+      | "ok" :: rest =>
+        match obsLoad.run rest with
+        | some (o, []) =>
+          -- what the records of the text are, by the model's parser (input side)
+          let parsed : Except ErrKind (Header × List Rec) := do
+            let (h, data) ← splitHeader (getlines '\n' chars)
+            let rs ← parseRecords g h.hasCost h.hasProb data
+            pure (h, rs)
+          match parsed with
+          | .error k => (st0, s!"PROPFAIL C15 load_rejects observed=ok documented={errTok k}")
+          | .ok (h, recs) =>
+            let on := obsNet g h.hasProb o
+            match model with
+            | .error k =>
+              -- only `No nodes within the extent` is left
+              (st0, s!"PROPFAIL C15 load_rejects observed=ok documented={errTok k}")
+            | .ok m =>
+              let st' : State := { ready := true, model := m, obs := on, obsAdj := o.adj.map fun e => (e.1, e.2.1) }
+              match loadPredicates g recs o on with
+              | some msg =>
+                -- a KNOWN line must not hide a disagreement with the model
+                if msg.startsWith "KNOWN" then
+                  let c := compareLoad m o
+                  (st', if c = "ok" then msg else c)
+                else (st', msg)
+              | none => (st', compareLoad m o)
+        | _ => (st0, "BADLINE")
+      | _ => (st0, "BADLINE")
+    | _ => ({}, "BADLINE")
+  | _ => ({}, "BADLINE")
+
+/-! ### trips -/
+
+def parseOutcome (obs : List String) : Option Outcome :=
+  match obs with
+  | [r, c] => do let r ← parseInt? r; let c ← parseInt? c; some (.at (r, c))
+  | ["err:invalid_argument"] => some (.err .invalid_argument)
+  | ["err:out_of_range"] => some (.err .out_of_range)
+  | ["err:runtime_error"] => some (.err .runtime_error)
+  | ["err:logic_error"] => some (.err .logic_error)
+  | _ => none
+
+/-- A walk (direct or through the kernel): predicates on the observed result, then membership in
+    the model's outcome set. -/
+def checkWalk (st : State) (cmd : String) (start : Cell) (d : Rat) (jump : Bool) (o : Outcome) : String :=
+  let hasNode := st.obs.hasNodeAt start
+  let pred : Option String :=
+    match o with
+    | .at x =>
+      if !hasNode then some "PROPFAIL C15 start_needs_node trip-from-cell-without-node"
+      else if !onNetwork st.obs start x then some s!"PROPFAIL C15 stays_on_network result={showCell x}"
+      else if jump && !isNodeCell st.obs x then some s!"PROPFAIL C15 jump result-not-an-end-node result={showCell x}"
+      else if d ≥ 0 && !st.obs.walkGHas false start d jump o then
+        some s!"PROPFAIL C15 {if jump then "jump" else "cost"} result={showCell x} allowed={showOutcomes (st.obs.walkRelaxed start d jump)}"
+      else none
+    | .err e =>
+      if !hasNode && e != .invalid_argument then some s!"PROPFAIL C15 start_needs_node wrong-error={errTok e}"
+      else none
+    | _ => none
+  match pred with
+  | some m => m
+  | none =>
+    if st.model.walkGHas true start d jump o then "ok"
+    else s!"MISMATCH {cmd} model={showOutcomes (st.model.walk start d jump)}"
+
+def checkTeleport (st : State) (cmd : String) (start : Cell) (steps : Nat) (o : Outcome) : String :=
+  let hasNode := st.obs.hasNodeAt start
+  let pred : Option String :=
+    match o with
+    | .at x =>
+      if !hasNode then some "PROPFAIL C15 start_needs_node teleport-from-cell-without-node"
+      else if !isNodeCell st.obs x then some s!"PROPFAIL C15 teleport_adjacent result-not-a-node result={showCell x}"
+      else if steps = 1 && !teleportAdjacent st.obs start x then
+        some s!"PROPFAIL C15 teleport_adjacent result={showCell x}"
+      else none
+    | .err e =>
+      if !hasNode && e != .invalid_argument then some s!"PROPFAIL C15 start_needs_node wrong-error={errTok e}"
+      else none
+    | _ => none
+  match pred with
+  | some m => m
+  | none =>
+    let outs := st.model.teleport start steps
+    if outs.contains o then "ok" else s!"MISMATCH {cmd} model={showOutcomes outs}"
+
+def handle (st : State) (cmd : String) (inp obs : List String) : State × String :=
+  if cmd = "net.load" then handleLoad st inp obs
+  else if !st.ready then (st, s!"MISMATCH {cmd} no-network-agreed-by-model-and-implementation")
+  else
+  let g := st.model.grid
+  match cmd, inp with
+  | "net.xy", [x, y] =>
+    match parseRat? x, parseRat? y with
+    | some x, some y =>
+      let c := g.xyToRowCol x y
+      let b (v : Bool) : String := if v then "1" else "0"
+      let m := [toString c.1, toString c.2, b (g.xyOut x y), b (g.cellOut c) ++ b (g.cellOut c)]
+      (st, if obs = m then "ok" else s!"MISMATCH net.xy model={m}")
+    | _, _ => (st, "BADLINE")
+  | "net.has", [r, c] =>
+    match parseInt? r, parseInt? c with
+    | some r, some c =>
+      let h := st.model.hasNodeAt (r, c)
+      let b (v : Bool) : String := if v then "1" else "0"
+      let m := [b h, toString (st.model.nodesAt (r, c)).eraseDups.length, b (st.model.isCellEligible (r, c))]
+      -- property: eligibility of a cell is the presence of a node (observed structure)
+      match obs with
+      | [oh, _, oe] =>
+        if oh != b (st.obs.hasNodeAt (r, c)) || oe != oh then (st, s!"PROPFAIL C15 start_needs_node has_node/eligible={oh}/{oe}")
+        else (st, if obs = m then "ok" else s!"MISMATCH net.has model={m}")
+      | _ => (st, "BADLINE")
+    | _, _ => (st, "BADLINE")
+  | "net.nodecell", [i] =>
+    match parseInt? i, parseOutcome obs with
+    | some i, some o =>
+      let m : Outcome := match st.model.nodeCell i with | some c => .at c | none => .err .invalid_argument
+      (st, if o = m then "ok" else s!"MISMATCH net.nodecell model={showOutcome m}")
+    | _, _ => (st, "BADLINE")
+  | "net.segview", [a, b] =>
+    match parseInt? a, parseInt? b with
+    | some a, some b =>
+      let m := st.model.getSegment a b
+      match obs with
+      | ["err:invalid_argument"] =>
+        (st, if m.isNone then "ok" else "MISMATCH net.segview model=ok")
+      | "ok" :: rest =>
+        let p : P (Rat × List Cell × Cell × Cell) := do
+          let cost ← rat; let k ← nat; let cells ← rep k cell
+          lit "front"; let f ← cell; lit "back"; let bk ← cell
+          pure (cost, cells, f, bk)
+        match p.run rest with
+        | some ((cost, cells, f, bk), []) =>
+          -- property (observed structure): the view is the stored segment of (a,b), or the one
+          -- of (b,a) reversed, with the cost of that segment
+          let fwd := st.obs.findSeg (a, b)
+          let bwd := st.obs.findSeg (b, a)
+          let okView := (fwd.any fun s => s.cells == cells && s.cost == cost) ||
+                        (bwd.any fun s => s.cells.reverse == cells && s.cost == cost)
+          if !okView || cells.head? != some f || cells.getLast? != some bk then
+            (st, s!"PROPFAIL C15 load_symmetric view {a},{b} is not the stored segment or its reverse")
+          else match m with
+            | some v =>
+              (st, if v.cells == cells && v.cost == cost && v.front == f && v.back == bk then "ok"
+                   else s!"MISMATCH net.segview model={v.cells.map showCell} cost={showRat v.cost}")
+            | none => (st, "MISMATCH net.segview model=err:invalid_argument")
+        | _ => (st, "BADLINE")
+      | _ => (st, "BADLINE")
+    | _, _ => (st, "BADLINE")
+  | "net.next", node :: _seed :: k :: rest =>
+    match parseInt? node, parseNat? k, parseInts? rest, obs with
+    | some node, some k, some ign, [o] =>
+      match parseInt? o with
+      | some o =>
+        if ign.length ≠ k then (st, "BADLINE") else
+        let nb := ((st.obsAdj.find? (fun e => e.1 = node)).map (·.2)).getD []
+        if nb.isEmpty && o != node then (st, s!"PROPFAIL C15 prefers_unvisited isolated-node-moved result={o}")
+        else if !nb.isEmpty && !nb.contains o then (st, s!"PROPFAIL C15 prefers_unvisited result-not-a-neighbour result={o}")
+        else if (nb.any fun m => !ign.contains m) && ign.contains o then
+          (st, s!"PROPFAIL C15 prefers_unvisited visited-chosen result={o} unvisited={nb.filter fun m => !ign.contains m}")
+        else
+          let m := st.model.nextNodes true node ign
+          (st, if m.contains o then "ok" else s!"MISMATCH net.next model={m}")
+      | none => (st, "BADLINE")
+    | _, _, _, _ => (st, "BADLINE")
+  | c, [r, cc, d, jump, _seed] =>
+    if c = "net.walk" || c = "net.kwalk" then
+      match parseInt? r, parseInt? cc, parseRat? d, parseOutcome obs with
+      | some r, some cc, some d, some o => (st, checkWalk st c (r, cc) d (jump = "1") o)
+      | _, _, _, _ => (st, "BADLINE")
+    else (st, "BADLINE")
+  | "net.teleport", [r, cc, steps, _seed] =>
+    match parseInt? r, parseInt? cc, parseInt? steps, parseOutcome obs with
+    | some r, some cc, some steps, some o => (st, checkTeleport st cmd (r, cc) steps.toNat o)
+    | _, _, _, _ => (st, "BADLINE")
+  | "net.kteleport", [r, cc, _seed] =>
+    match parseInt? r, parseInt? cc, parseOutcome obs with
+    | some r, some cc, some o => (st, checkTeleport st cmd (r, cc) 1 o)
+    | _, _, _ => (st, "BADLINE")
+  | _, _ => (st, "BADLINE")
 
 end Pops.Driver.NetEng
